@@ -641,6 +641,10 @@ func setNthValue(ctx context.Context, scope *ReferenceScope, partition Partition
 				break
 			}
 		}
+		if count < n {
+			// The frame holds fewer than n values.
+			val = value.NewNull()
+		}
 
 		for _, idx := range frame.Records {
 			list[idx] = val
